@@ -118,6 +118,9 @@ package keeper
 //@ writesite locking.ValidatorSet positive_power: val > 0
 //@ writesite locking.ValidatorSet records_power: has(st.locking.Validators, key) && val == st.locking.Validators[key].Power
 //@ writesite locking.Validators status_step: has(st.locking.Validators, key) && val.Power == st.locking.Validators[key].Power && ((st.locking.Validators[key].Status == 1 && val.Status == 2) || (st.locking.Validators[key].Status == 2 && val.Status == 1))
+// C14 "slashed by the downtime fraction exactly once for that offence": a validator enters the active set with an empty
+// signing window, so misses counted before a demotion are not counted again after its return.
+//@ writesite locking.Validators [C14] fresh_window: val.Status == 2 ==> val.SigningInfo.Missed == 0 && val.SigningInfo.Offset == 0
 //@ ensures ri_rank_kept: err == nil ==> forall(p, 0, 18446744073709551616, forallb(a, has(st.locking.PowerRanking, pair(p, a)) ==> has(st.locking.Validators, a) && st.locking.Validators[a].Power == p && p > 0 && (st.locking.Validators[a].Status == 1 || st.locking.Validators[a].Status == 2)))
 //@ ensures ri_set_kept: err == nil ==> forallb(a, has(st.locking.ValidatorSet, a) ==> has(st.locking.Validators, a))
 //@ loop 0 invariant true
